@@ -374,9 +374,11 @@ class Sim13:
                 rr["delivered"] = [[d[0], d[1], d[2], d[3]] for d in w.delivered]
             reqs.append(rr)
         incs = [{k: v for k, v in i.items() if not k.startswith("_")} for i in self.incs]
-        return {"t_end": t_end, "incs": incs, "toggles": self.toggles, "pcalls": self.pcalls, "ka": self.ka,
-                "touches": self.touches, "calls": self.calls, "cycles": self.cycles, "marks": self.marks,
-                "peering_history": phist, "kex_history": khist, "requests": reqs, "guard_failures": self.guard_failures, "writes": self.writes}
+        # NB: a snapshot: the wind-down after `end` (graceful stops of whatever still runs) must not leak into the judged history
+        snap = copy.deepcopy
+        return {"t_end": t_end, "incs": incs, "toggles": snap(self.toggles), "pcalls": snap([{k: v for k, v in p.items() if not k.startswith("_")} for p in self.pcalls]),
+                "ka": snap(self.ka), "touches": snap(self.touches), "calls": snap(self.calls), "cycles": snap(self.cycles), "marks": snap(self.marks),
+                "peering_history": phist, "kex_history": khist, "requests": reqs, "guard_failures": snap(self.guard_failures), "writes": snap(self.writes)}
 
 
 # =================================================================================================
